@@ -128,6 +128,38 @@ def run(ctx, replay=None):
             corr.append((prog, want))
         if i < 3:
             ctx.sample({"program": prog, "result_shape": list(want.shape)})
+    # directed chains (harness/programs.py T6_PATTERNS plus chains of permutations): consecutive axis permutations of
+    # rank 3-5 arrays (non-commuting, cycles), permutations under indices / takes / rechunks / reductions
+    perm_chains = (("src_hi", "perm", "perm"), ("src_hi", "perm", "perm", "perm"), ("src_hi", "perm", "perm", "unary"),
+                   ("src_hi", "perm", "unary", "perm"), ("src_hi", "perm", "perm", "reduce"), ("src_hi", "perm", "perm", "take_len"),
+                   ("src_hi", "perm", "perm", "rechunk"), ("src_hi", "perm", "take_len"), ("src_hi", "perm", "take_len", "perm"))
+    fams = dict(P.T6_PATTERNS)
+    fams["perm-chains"] = ({"maxrank": 5}, perm_chains)
+    per = ctx.scale(6, 40)
+    for fam, (kw, pats) in fams.items():
+        for pat, g in P.directed_programs_t6(rng, per * len(pats), pats, **kw):
+            prog = g.prog
+            if not prog:
+                continue
+            want = g.env[prog[-1]["out"]]
+            for opt in (True, False):
+                ctx.count(("directed", fam, opt))
+                f = PC.check_values(ctx, prog, want, opt)
+                if f is None:
+                    continue
+                if f["sig"] in KNOWN:
+                    ctx.fail(f["sig"], {"program": prog, **f}, "known finding reproduced by the directed stream")
+                    continue
+
+                def still_d(p, _opt=opt, _sig=f["sig"]):
+                    w = P.run_np(p)[p[-1]["out"]]
+                    r = PC.check_values(ctx, p, w, _opt)
+                    return r is not None and r["sig"] == _sig
+
+                small = P.shrink(prog, still_d)
+                w = P.run_np(small)[small[-1]["out"]]
+                f2 = PC.check_values(ctx, small, w, opt) or f
+                ctx.fail(f2["sig"], {"program": small, **f2}, "dask_array program differs from NumPy (directed chain)")
     # scans over many blocks (both methods): 1..24 unit blocks, plus uneven chunkings
     for n in range(1, ctx.scale(25, 70)):
         for method in ("sequential", "blelloch"):
